@@ -52,3 +52,15 @@ where
 
     (ri, n_overlaps)
 }
+
+// ---------------------------------------------------------------------------
+// verification hooks (add-only, off unless feature `verif-hooks` is enabled)
+#[cfg(feature = "verif-hooks")]
+impl<T> ChordalInfo<T>
+where
+    T: FloatT,
+{
+    pub(crate) fn vh_number_of_overlaps_in_rows(A: &CscMatrix<T>) -> (Vec<usize>, Vec<T>) {
+        number_of_overlaps_in_rows(A)
+    }
+}
